@@ -46,24 +46,24 @@ type thread struct {
 }
 
 type gImpl struct {
-	s       *sched.Sched
-	wg      *gsync.SelectableWaitGroup
-	threads []*thread
-	chanID  map[uintptr]int
-	chans   map[int]chan struct{} // id -> channel value, for the closed-ness probe
-	nextID  int
-	count   int64
-	wchan   int
-	lock    string
-	zc      int
-	lb      int // conservative lower bound of the count: increments returned + decrements called
-	lzc     int // instants with lb <= 0
-	sumRet  int // sum of deltas of returned Add calls
-	inAdd   int // Add calls in flight
-	mon2    string // C02 verdict raised inside a schedule (sticky)
-	mon     string
-	variant string
-	roChans []<-chan struct{}
+	s           *sched.Sched
+	wg          *gsync.SelectableWaitGroup
+	threads     []*thread
+	chanID      map[uintptr]int
+	chans       map[int]chan struct{} // id -> channel value, for the closed-ness probe
+	nextID      int
+	count       int64
+	wchan       int
+	lock        string
+	zc          int
+	lb          int    // conservative lower bound of the count: increments returned + decrements called
+	lzc         int    // instants with lb <= 0
+	sumRet      int    // sum of deltas of returned Add calls
+	inAdd       int    // Add calls in flight
+	mon2        string // C02 verdict raised inside a schedule (sticky)
+	mon         string
+	variant     string
+	roChans     []<-chan struct{}
 	reservedSum int
 }
 
